@@ -29,6 +29,9 @@ CONFIGS = {
     "dbg": dict(tlsh=BASE_FEATURES, sim=[], profile={"opt-level": 2, "debug-assertions": "true", "overflow-checks": "true"}),
     "dbg_unsafe": dict(tlsh=BASE_FEATURES + ["unsafe"], sim=[], profile={"opt-level": 2, "debug-assertions": "true", "overflow-checks": "true"}),
     "rel_unsafe": dict(tlsh=BASE_FEATURES + ["unsafe"], sim=[]),
+    # the scalar / table-less / reduced-memory paths under debug assertions and overflow checks
+    "dbg_plain": dict(tlsh=["std", "easy-functions", "opt-low-memory-buckets", "opt-low-memory-hex-str-decode-quarter-table", "opt-low-memory-hex-str-encode-half-table"],
+                      sim=[], profile={"opt-level": 2, "debug-assertions": "true", "overflow-checks": "true"}),
     "asan_unsafe": dict(tlsh=BASE_FEATURES + ["unsafe"], sim=[], toolchain="nightly", rustflags="-Zsanitizer=address",
                         target="x86_64-unknown-linux-gnu", profile={"opt-level": 2, "debug-assertions": "true"}),
     "asan": dict(tlsh=BASE_FEATURES, sim=[], toolchain="nightly", rustflags="-Zsanitizer=address",
@@ -38,6 +41,7 @@ CONFIGS = {
     "alloc_default": dict(tlsh=BASE_FEATURES, sim=["alloc_world"]),
     "alloc_plain": dict(tlsh=["std", "easy-functions"], sim=["alloc_world"]),
     "alloc_embedded": dict(tlsh=["std", "easy-functions", "opt-embedded-default", "opt-low-memory-buckets"], sim=["alloc_world"]),
+    "alloc_unsafe_minhex": dict(tlsh=BASE_FEATURES + ["unsafe", "opt-low-memory-hex-str-decode-min-table", "opt-low-memory-hex-str-encode-min-table"], sim=["alloc_world"]),
     # shuttle build: shadow manifest adds the shuttle dependency to fast-tlsh itself
     "shuttle": dict(tlsh=BASE_FEATURES, sim=["hooks", "shuttle"], rustflags="--cfg fast_tlsh_verif --cfg fast_tlsh_verif_shuttle",
                     shadow=['shuttle = "0.9.3"']),
@@ -570,7 +574,8 @@ MATRIX = {
 }
 for _k, _v in MATRIX.items():
     CONFIGS[_k] = dict(tlsh=_v["tlsh"], sim=[], rustflags=_v.get("rustflags", ""))
-MATRIX_QUICK = ["m_plain", "m_default", "m_unsafe", "m_embedded", "m_static_sse41", "m_dec_half", "m_dec_quarter", "m_enc_half", "m_static_sse2"]
+MATRIX_QUICK = ["m_plain", "m_default", "m_unsafe", "m_embedded", "m_static_sse41", "m_dec_half", "m_dec_quarter", "m_enc_half", "m_static_sse2",
+                "m_simd_nohex", "m_dyn_no_tables"]
 
 
 def transcript_of(ctx, binary, seed, count):
@@ -796,7 +801,7 @@ def alloc_world(ctx, vd, config, binary, procs, per_proc, hard):
                                                                          sum(r.get("violation_count", 0) for r in reps)))
 
 
-ALLOC_CONFIGS = ["alloc_default", "alloc_plain", "alloc_embedded"]
+ALLOC_CONFIGS = ["alloc_default", "alloc_plain", "alloc_embedded", "alloc_unsafe_minhex"]
 
 
 def check_C18(ctx, tier, seed):
@@ -870,7 +875,7 @@ def miri_batches(ctx, vd, key, scenario, count, procs, extra=()):
 def check_C17(ctx, tier, seed):
     vd = Verdict(ctx, "C17", tier, seed, "exploration")
     quick = tier == "quick"
-    native = ["dbg", "dbg_unsafe", "rel_unsafe"] + ([] if quick else ["asan", "asan_unsafe"])
+    native = ["dbg", "dbg_unsafe", "rel_unsafe", "dbg_plain"] + ([] if quick else ["asan", "asan_unsafe"])
     bins = build_many(ctx, native + ["default"])
     scen = [("c17api", 60_000), ("c17reader", 40_000), ("c03", 20_000), ("c12", 20_000), ("c11small", 10_000)]
     mult = 1 if quick else 40
@@ -1017,7 +1022,7 @@ def check_C16(ctx, tier, seed):
     return vd.finish()
 
 
-SETUP_CONFIGS = ["default", "hooked", "hooked_dbg", "shuttle"] + SERDE_CONFIGS + MATRIX_QUICK + ALLOC_CONFIGS + ["dbg", "dbg_unsafe", "rel_unsafe"]
+SETUP_CONFIGS = ["default", "hooked", "hooked_dbg", "shuttle"] + SERDE_CONFIGS + MATRIX_QUICK + ALLOC_CONFIGS + ["dbg", "dbg_unsafe", "rel_unsafe", "dbg_plain"]
 
 CHECKS = {"C03": check_C03, "C07": check_C07, "C11": check_C11, "C12": check_C12, "C16": check_C16, "C17": check_C17, "C18": check_C18}
 
